@@ -73,7 +73,13 @@ class ManifestPathEntry:
             raise ManifestSyntaxError(
                 f'Invalid escape sequence at pos {m.start()} '
                 f'of: {m.string}')
-        return chr(int(val[1:], base=16))
+        cp = int(val[1:], base=16)
+        # \U allows for values that are not valid code points
+        if cp > 0x10FFFF or 0xD800 <= cp <= 0xDFFF:
+            raise ManifestSyntaxError(
+                f'Invalid code point in escape sequence at pos '
+                f'{m.start()} of: {m.string}')
+        return chr(cp)
 
     @classmethod
     def process_path(cls, data):
